@@ -268,6 +268,7 @@ func preliminaryVersionBoundRule(p *engine.Prog, r *engine.Report, rule string) 
 		return
 	}
 	height := ssa.Value(f.Params[1])
+	visited := map[*ssa.Function]bool{}
 	fromHeight := func(v ssa.Value) (bool, bool) { // derives from height, plus one
 		plus := false
 		is := false
@@ -359,10 +360,34 @@ func preliminaryVersionBoundRule(p *engine.Prog, r *engine.Report, rule string) 
 			}
 		}
 	}
-	scan(f, false)
-	for _, an := range engine.Anon(f) {
-		scan(an, true)
+	var scanAll func(fn *ssa.Function)
+	scanAll = func(fn *ssa.Function) {
+		if visited[fn] {
+			return
+		}
+		visited[fn] = true
+		scan(fn, false)
+		for _, an := range engine.Anon(fn) {
+			scan(an, true)
+		}
+		// a same-package helper that is handed the height (the search extracted into a function)
+		for _, c := range engine.Calls(fn) {
+			h := c.Common().StaticCallee()
+			if h == nil || h.Blocks == nil || h.Pkg != fn.Pkg || visited[h] {
+				continue
+			}
+			for i, a := range c.Common().Args {
+				if is, _ := fromHeight(a); is && i < len(h.Params) {
+					saved := height
+					height = h.Params[i]
+					scanAll(h)
+					height = saved
+					break
+				}
+			}
+		}
 	}
+	scanAll(f)
 	if verdict == "" {
 		r.Und(rule, "LoadPreliminary|fallback version is the highest one not above the height", p.Pos(f.Pos()), "no comparison between a stored version and the requested height was recognised (accepted idioms: scan with v <= height, sort.Search with v > height, sort.SearchInts(versions, height+1))")
 		return
@@ -1943,6 +1968,49 @@ func init() {
 				for _, ins := range b.Instrs {
 					if pn, ok := ins.(*ssa.Panic); ok {
 						r.Note("XPANIC", uniq(r, engine.RelName(f)+"|panic"), p.InstrPos(pn), fmt.Sprintf("recover-in-func=%v %s", hasRecover, renderVal(pn.X, 0)))
+					}
+				}
+			}
+		}
+	})
+	register("XALLOC", func(p *engine.Prog, r *engine.Report) {
+		for _, f := range p.AllFuncs() {
+			if f.Blocks == nil || !engine.IsRepoPkg(engine.FuncPkg(f)) || isTestish(p.Pos(f.Pos())) {
+				continue
+			}
+			for _, b := range f.Blocks {
+				for _, ins := range b.Instrs {
+					mk, ok := ins.(*ssa.MakeSlice)
+					if !ok {
+						continue
+					}
+					for _, ln := range []ssa.Value{mk.Len, mk.Cap} {
+						if _, isC := ln.(*ssa.Const); isC {
+							continue
+						}
+						src := ""
+						for v := range engine.BackSlice(ln, engine.SliceOpts{ThroughLoads: true, ThroughCalls: true, MaxNodes: 60}) {
+							switch x := v.(type) {
+							case *ssa.Call:
+								if o := engine.CalleeObj(&x.Call); o != nil {
+									n := o.Name()
+									if strings.HasPrefix(n, "Uint") || strings.HasPrefix(n, "Varint") || strings.HasPrefix(n, "Uvarint") || n == "DecodedLen" || n == "ReadByte" {
+										src = n
+									}
+								}
+							case *ssa.UnOp:
+								if x.Op == token.MUL {
+									if owner, fld, ok := engine.FieldOf(x.X); ok && strings.Contains(owner, "Proto") {
+										if bt, isB := x.Type().Underlying().(*types.Basic); isB && bt.Info()&types.IsInteger != 0 {
+											src = owner + "." + fld
+										}
+									}
+								}
+							}
+						}
+						if src != "" {
+							r.Note("XALLOC", uniq(r, engine.RelName(f)+"|make sized by decoded number"), p.InstrPos(mk), src)
+						}
 					}
 				}
 			}
